@@ -1708,6 +1708,11 @@ class Evaluator:
                 res = atom(("mcall", args[0], "ravel", (), ()))
                 self.emit("call", node, callee=("mcall", "ravel"), fi=None, recv=args[0], args=(), kwargs=(), result=res)
                 return res
+        if d == "dict.fromkeys" and 1 <= len(args) <= 2 and not kwargs:
+            ka = args[0].single_atom()
+            if ka is not None and ka[0] in ("tuple", "list") and len(ka[1]) <= 12:
+                # dict.fromkeys(("a", "b"), v) is {"a": v, "b": v}
+                return atom(("dict", tuple((k_, args[1] if len(args) == 2 else T.NONE) for k_ in ka[1])))
         if d == "isinstance" and len(args) == 2 and not kwargs:
             ta = args[1].single_atom()
             if ta is not None and ta[0] == "tuple" and 1 <= len(ta[1]) <= 6:
